@@ -534,3 +534,95 @@ def check_edge_end(ctx):
                           'neither complete nor monotonic' if not ok
                    else None)
     ctx.floor('EDGE-END', found, 1, 'order test in _add_last_bin_for_dim')
+
+
+# ------------------------------------------------------------ LOCK-PAIR ---
+
+def check_lock_pair(ctx):
+    """"never hangs, whatever was parsed earlier in the same process": the
+    process-wide pyparsing lock is released on EVERY exit of the region that
+    takes it, exceptional exits included (a failing parse is the normal case
+    for a truncated listing).  `with LOCK:` releases by construction; an
+    explicit LOCK.acquire() must reach LOCK.release() on every CFG path to
+    the exit of the function, where a `yield` (generator-based context
+    manager: the exception of the body is thrown in at the yield) and every
+    call may raise."""
+    from ..cfg import CFG
+    program = ctx.program
+    n = 0
+    for mod in program.modules.values():
+        if not mod.name.startswith('valjean.eponine.tripoli4'):
+            continue
+        locks = {name for name, val in mod.toplevel.items()
+                 if isinstance(val, ast.Call) and call_name(val) in (
+                     'Lock', 'RLock', 'Semaphore', 'BoundedSemaphore')}
+        if not locks:
+            continue
+        program.consulted.add(mod.relpath)
+        for func in mod.functions.values():
+            for node in walk_local(func.node):
+                if isinstance(node, ast.With):
+                    for item in node.items:
+                        if dotted(item.context_expr) in locks:
+                            n += 1
+                            ctx.holds('LOCK-PAIR', func,
+                                      f'with {dotted(item.context_expr)}: '
+                                      f'released on every exit',
+                                      at=func.where(node))
+            acquires = [c for c in calls_in(func.node)
+                        if call_name(c) == 'acquire' and
+                        dotted(receiver(c)) in locks]
+            if not acquires:
+                continue
+
+            def may_raise(stmt):
+                if stmt is None:
+                    return False
+                return any(isinstance(sub, (ast.Call, ast.Yield,
+                                            ast.YieldFrom, ast.Raise,
+                                            ast.Assert, ast.Subscript))
+                           for sub in ast.walk(stmt))
+            cfg = CFG(func.node, may_raise=may_raise)
+            for acq in acquires:
+                n += 1
+                lock = dotted(receiver(acq))
+                start = [nd for nd in cfg.nodes if nd.ast is not None and
+                         any(c is acq for c in calls_in(nd.ast))]
+                if not start:
+                    ctx.undecided('LOCK-PAIR', func, f'{lock}.acquire()',
+                                  at=func.where(acq))
+                    continue
+
+                def releases(nd):
+                    return nd.ast is not None and nd.kind == 'stmt' and any(
+                        call_name(c) == 'release' and
+                        dotted(receiver(c)) == lock
+                        for c in calls_in(nd.ast))
+                leak = None
+                # successors of the acquire statement, the acquire itself
+                # raising leaves nothing to release
+                seen, todo = set(), [nxt for nxt, lab in start[0].succ
+                                     if lab != 'exc']
+                while todo:
+                    cur = todo.pop()
+                    if cur.id in seen:
+                        continue
+                    seen.add(cur.id)
+                    if cur.kind in ('exit', 'raise'):
+                        leak = cur
+                        break
+                    if releases(cur):
+                        continue
+                    for nxt, lab in cur.succ:
+                        todo.append(nxt)
+                ctx.decide('LOCK-PAIR', func,
+                           f'{lock}.acquire() is followed by {lock}.'
+                           f'release() on every path out of {func.name}',
+                           leak is None, at=func.where(acq),
+                           detail=None if leak is None else
+                           f'a path reaches the '
+                           f'{"exceptional " if leak.kind == "raise" else ""}'
+                           f'exit of {func.name} with the lock held: every '
+                           f'later parse in another thread blocks for ever')
+    ctx.floor('LOCK-PAIR', n, 1, 'uses of a module-level lock in '
+              'valjean.eponine.tripoli4')
